@@ -1,0 +1,51 @@
+#ifndef __Verif_Hooks_hpp_
+#define __Verif_Hooks_hpp_
+// Instrumentation hooks for runtime verification. Everything in this file is inactive unless LIBPHYSICA_VERIF is defined.
+#ifdef LIBPHYSICA_VERIF
+namespace libphysica
+{
+namespace verif
+{
+// Called at instrumented sites (loop heads, branch entries) if installed. The handler may count or throw.
+typedef void (*tick_handler_type)(const char* site);
+inline tick_handler_type& tick_handler()
+{
+	static tick_handler_type handler = nullptr;
+	return handler;
+}
+// Seed override for the Monte Carlo integrators, which otherwise seed a fresh generator from std::random_device on every call.
+inline bool& mc_seed_override()
+{
+	static bool override_seed = false;
+	return override_seed;
+}
+inline unsigned int& mc_seed_value()
+{
+	static unsigned int seed = 0;
+	return seed;
+}
+}	// namespace verif
+}	// namespace libphysica
+#define LIBPHYSICA_VERIF_TICK(site)                    \
+	do                                                 \
+	{                                                  \
+		if(libphysica::verif::tick_handler())          \
+			libphysica::verif::tick_handler()(site);   \
+	} while(0)
+#define LIBPHYSICA_VERIF_SEED(prng)                                \
+	do                                                             \
+	{                                                              \
+		if(libphysica::verif::mc_seed_override())                  \
+			(prng).seed(libphysica::verif::mc_seed_value());       \
+	} while(0)
+#else
+#define LIBPHYSICA_VERIF_TICK(site) \
+	do                              \
+	{                               \
+	} while(0)
+#define LIBPHYSICA_VERIF_SEED(prng) \
+	do                              \
+	{                               \
+	} while(0)
+#endif
+#endif
